@@ -36,7 +36,8 @@ TextPayloads ==
   THEN SeqsUpTo({97, 233, 8364, 10}, 2)
        \cup {<<0>>, <<97, 0>>, <<46>>, <<32>>, <<32, 10>>, <<97, 46, 32>>, <<97, 46, 10>>, <<233, 46, 10, 97>>,
              <<32, 97, 46, 10>>, <<97, 46, 10, 233, 97, 46, 32>>}
-  ELSE SeqsUpTo({97, 233, 8364, 10, 46, 32, 0}, 2) \cup SeqsUpTo({97, 8364, 10}, 3)
+  ELSE SeqsUpTo({97, 233, 8364, 10}, 2) \cup SeqsUpTo({97, 8364, 10}, 3)
+       \cup {<<0>>, <<97, 0>>, <<0, 8364, 10>>, <<46>>, <<32>>, <<32, 10, 32>>, <<46, 32, 10>>, <<97, 46, 97>>}
        \cup {<<97, 46, 32>>, <<97, 46, 10>>, <<233, 46, 10, 97>>, <<32, 97, 46, 10>>, <<10, 97, 233, 46, 10, 10>>,
              <<97, 46, 10, 233, 97, 46, 32>>, <<97, 46, 32, 10, 97, 46, 10>>}
 (* bytes: "a", 0, 255, the lead byte of e-acute (not valid UTF-8 on its own: binary streams do not decode) *)
@@ -46,10 +47,12 @@ O(op) == Op(op, 0, <<>>)
 (* families of read operations (a behaviour uses one family) *)
 Families(typ) ==
   IF typ = "text"
-  THEN IF Walk \/ Inv THEN {"all"} ELSE IF Quick THEN {"t1"} ELSE {"t1", "t2"}
+  THEN IF Walk \/ Inv THEN {"all"} ELSE IF Quick THEN {"tq1", "tq2"} ELSE {"t1", "t2"}
   ELSE IF Walk \/ Inv THEN {"all"} ELSE IF Quick THEN {"b1"} ELSE {"b1", "b2"}
 ReadOps(fam) ==
-  CASE fam = "t1" -> {O("get_char"), O("peek_char"), O("get_code"), O("peek_code"), Op("get_n_chars", 2, <<>>),
+  CASE fam = "tq1" -> {O("get_char"), O("peek_char"), Op("get_n_chars", 2, <<>>), O("at_end"), O("read_term")}
+    [] fam = "tq2" -> {O("get_code"), O("peek_code"), O("get_char"), O("at_end")}
+    [] fam = "t1" -> {O("get_char"), O("peek_char"), O("get_code"), O("peek_code"), Op("get_n_chars", 2, <<>>),
                       O("at_end"), O("read_term")}
     [] fam = "t2" -> {O("get_char"), O("peek_code"), Op("get_n_chars", 1, <<>>), O("mark"), O("seek"), O("get_byte"),
                       O("read_term")}
@@ -63,28 +66,32 @@ Repos(fam) == fam \in {"t2", "b2", "all"}
 
 WriteOps(typ) ==
   IF typ = "text"
-  THEN {Op("put_char", 0, <<c>>) : c \in {97, 8364, 10}} \cup {Op("put_code", 0, <<c>>) : c \in {233, 0}}
-       \cup {Op("nl", 0, <<10>>), Op("write", 0, <<233, 97>>), Op("format_a", 0, <<8364>>), Op("format_w", 0, <<97>>),
-             Op("format_s", 0, <<233, 10>>), Op("format_lit", 0, <<97, 8364>>), Op("put_byte", 0, <<65>>)}
+  THEN IF Quick
+       THEN {Op("put_char", 0, <<8364>>), Op("put_char", 0, <<10>>), Op("put_code", 0, <<233>>), Op("nl", 0, <<10>>),
+             Op("write", 0, <<233, 97>>), Op("format_a", 0, <<8364>>), Op("format_s", 0, <<97, 10>>),
+             Op("format_lit", 0, <<97, 8364>>), Op("put_byte", 0, <<65>>)}
+       ELSE {Op("put_char", 0, <<c>>) : c \in {97, 8364, 10}} \cup {Op("put_code", 0, <<c>>) : c \in {233, 0}}
+            \cup {Op("nl", 0, <<10>>), Op("write", 0, <<233, 97>>), Op("format_a", 0, <<8364>>), Op("format_w", 0, <<97>>),
+                  Op("format_s", 0, <<233, 10>>), Op("format_lit", 0, <<97, 8364>>), Op("put_byte", 0, <<65>>)}
   ELSE {Op("put_byte", 0, <<b>>) : b \in {97, 0, 255}} \cup {Op("put_char", 0, <<97>>)}
 
-(* bounds: number of read operations, by length of the content *)
-ReadBound(origin, n) ==
+(* bounds: number of read operations, by length of the payload in characters *)
+ReadBound(origin, fam, n) ==
   IF Walk THEN 30
   ELSE IF Inv THEN 1
   ELSE IF origin # "py" THEN 2
-  ELSE IF Quick THEN (IF n <= 1 THEN 4 ELSE 3)
-  ELSE (IF n <= 1 THEN 5 ELSE IF n = 2 THEN 4 ELSE 3)
+  ELSE IF Quick \/ fam \in {"t2", "b2"} THEN (IF n <= 1 THEN 4 ELSE 3)
+  ELSE (IF n <= 2 THEN 4 ELSE 3)
 WriteBound == IF Walk THEN 3 ELSE 2
 
 EofActions == {"error", "eof_code", "reset"}
 
 VARIABLES s, hist, aux, meta
 vars == <<s, hist, aux, meta>>
-(* meta: [origin, fam, init (initial content), nr (reads done), nw (writes done)] ; aux: bytes/newlines *)
+(* meta: [origin, fam, init (initial content), n (its length in characters), nr (reads done), nw (writes done)] ; aux: bytes/newlines *)
 (* consumed according to the RESULTS delivered since the last reset/seek (independent of s.pos)        *)
 
-Meta(origin, fam, init) == [origin |-> origin, fam |-> fam, init |-> init, nr |-> 0, nw |-> 0]
+Meta(origin, fam, init, n) == [origin |-> origin, fam |-> fam, init |-> init, n |-> n, nr |-> 0, nw |-> 0]
 
 Init ==
   /\ hist = <<>> /\ aux = [cb |-> 0, cn |-> 0]
@@ -92,13 +99,13 @@ Init ==
      \E e \in (IF Walk \/ Inv THEN EofActions ELSE {"any"}) :
        \/ \E p \in (IF typ = "text" THEN TextPayloads ELSE BinPayloads) :
             LET bytes == IF typ = "text" THEN Utf8Seq(p) ELSE p IN
-            s = NewStream(typ, e, "r", bytes) /\ meta = Meta("py", fam, bytes)
-       \/ /\ fam \in {"t1", "b1", "all"} /\ ~Inv
-          /\ s = NewStream(typ, e, "w", <<>>) /\ meta = Meta("pl", fam, <<>>)
-       \/ /\ fam \in {"t1", "b1", "all"} /\ ~Inv
+            s = NewStream(typ, e, "r", bytes) /\ meta = Meta("py", fam, bytes, Len(p))
+       \/ /\ fam \in {"tq1", "t1", "b1", "all"} /\ ~Inv
+          /\ s = NewStream(typ, e, "w", <<>>) /\ meta = Meta("pl", fam, <<>>, 0)
+       \/ /\ fam \in {"tq1", "t1", "b1", "all"} /\ ~Inv
           /\ \E p \in (IF typ = "text" THEN {<<233>>, <<97, 10>>} ELSE {<<255>>}) :
                LET bytes == IF typ = "text" THEN Utf8Seq(p) ELSE p IN
-               s = NewStream(typ, e, "w", bytes) /\ meta = Meta("ap", fam, bytes)
+               s = NewStream(typ, e, "w", bytes) /\ meta = Meta("ap", fam, bytes, Len(p))
 
 NeedsEofa(o) == o.op \notin {"at_end", "mark", "seek"}
 
@@ -117,7 +124,7 @@ AuxAfter(a, o, d) ==
        ELSE b
 
 ReadStep ==
-  /\ s.mode = "r" /\ meta.nr < ReadBound(meta.origin, Len(s.content))
+  /\ s.mode = "r" /\ meta.nr < ReadBound(meta.origin, meta.fam, meta.n)
   /\ \E o \in ReadOps(meta.fam) :
      \E e \in (IF s.eofa = "any" /\ s.past /\ NeedsEofa(o) THEN EofActions ELSE {s.eofa}) :
        LET s1 == [s EXCEPT !.eofa = e] IN
@@ -131,7 +138,7 @@ ReadStep ==
 
 WriteStep ==
   /\ s.mode = "w"
-  /\ \/ /\ meta.nw < WriteBound
+  /\ \/ /\ meta.nw < (IF meta.origin = "ap" THEN 1 ELSE WriteBound)
         /\ \E o \in WriteOps(s.typ) :
              LET d == Do(s, o) IN
              /\ s' = d.s /\ hist' = Append(hist, StepRec(o, d)) /\ aux' = aux
@@ -143,7 +150,7 @@ WriteStep ==
 
 Next == ReadStep \/ WriteStep
 
-Finished == s.mode = "r" /\ meta.nr = ReadBound(meta.origin, Len(s.content))
+Finished == s.mode = "r" /\ meta.nr = ReadBound(meta.origin, meta.fam, meta.n)
 
 Emit ==
   Finished =>
